@@ -74,6 +74,10 @@ def r5(ctx, cfg):
                 form = "bytes"
         if nt["callee"]["key"].endswith("next_back"):
             form = None
+    if form is None and not nxt:
+        form = _rposition_form(ctx, cfg, R, key, f, is_copy)
+        if form is not None:
+            return
     ctx.ob(R, key, "scans-every-index-from-the-end", form is not None, "carry loop iterates %s (expected (0..input.len()).rev() or copy.iter_mut().rev())" % d, fn=f,
            sample="%s form: %s" % (form, d))
     if form is None:
@@ -126,6 +130,76 @@ def r5(ctx, cfg):
                 a = P.call_args(f, t, b)
                 idx_ok = idx_ok and is_pos(a[1])
         ctx.ob(R, key, "indexed-by-the-scan-position", idx_ok, "a byte is read or written at an index other than the scan position", fn=f, sample="copy[i]")
+
+
+def _rposition_form(ctx, cfg, R, key, f, is_copy):
+    """the same carry without a hand-written scan: `match copy.iter().rposition(|b| *b != 255) { Some(p) => { copy[p] += 1;
+    copy[p + 1..].fill(0) } None => .. }` - the last byte that is not 0xFF is incremented, every byte behind it (all 0xFF)
+    becomes 0.  Returns "rposition" when the function is written this way (its obligations are recorded here), else None."""
+    F, P = cfg.facts, cfg.prov
+    cf = cfg_of(f)
+    rp = [(b, t) for b, t in f.calls() if t["callee"]["key"] in ("std::iter::Iterator::rposition",)]
+    if len(rp) != 1:
+        return None
+    rb, rt = rp[0]
+    a = P.call_args(f, rt, rb)
+    clo = peel(a[1])
+    g = F.fn(clo[1]) if clo[0] == "closure" else None
+    pred = q.norm_cond(P.ret(g), True) if g is not None else None
+    ok = is_copy(strip_adapters(a[0])) and not q.chain_adapters(a[0])[1:] and pred is not None and pred[0] == "eq" and pred[2] is False and \
+        any(x == ("const", "int", 255) for x in pred[1]) and any(peel(x)[0] == "cparam" for x in pred[1])
+    ctx.ob(R, key, "scans-every-index-from-the-end", ok, "rposition over %s with predicate %s (expected copy.iter().rposition(|b| *b != 255))" % (fmt(a[0])[:60], pred),
+           fn=f, sample="rposition form: last index whose byte is not 0xFF")
+    if not ok:
+        return "rposition"
+
+    def is_pivot(o):
+        o = peel(o)
+        return o[0] == "some" and peel(o[1])[0] == "call" and peel(o[1])[1] == "std::iter::Iterator::rposition"
+
+    def base_is_copy(o):
+        o = peel(o)
+        while o[0] == "upd":
+            o = peel(o[1])
+        return is_copy(o)
+    # writes: one `copy[pivot] += 1`, one `copy[pivot + 1..].fill(0)`, both under Some(pivot); nothing else indexed
+    incs, fills, others = [], [], []
+    for b, i, st in f.stmts():
+        if st["k"] == "assign" and st["dst"]["p"] and st["dst"]["p"][0]["k"] == "deref":
+            base = peel(P.local(f, st["dst"]["l"], (b, i)))
+            while base[0] == "upd":
+                base = peel(base[1])
+            if base[0] == "call" and base[1].endswith("IndexMut::index_mut"):
+                v = peel(P.rvalue(f, st["rv"], (b, i)))
+                at_pivot = base_is_copy(base[2][0]) and is_pivot(base[2][1])
+                plus1 = contains(v, lambda x: x[0] == "binop" and x[1] == "add" and peel(x[3]) == ("const", "int", 1) and peel(x[2])[0] == "call" and
+                                 peel(x[2])[1].endswith("IndexMut::index_mut") and is_pivot(peel(x[2])[2][1]))
+                (incs if at_pivot and plus1 else others).append(b)
+    for b, t in f.calls():
+        if t["callee"]["key"] == "[T]::fill":
+            fa = P.call_args(f, t, b)
+            tgt = peel(fa[0])
+            if tgt[0] == "call" and tgt[1].endswith("IndexMut::index_mut"):
+                r = peel(tgt[2][1])
+                st0 = peel(dict(r[2]).get("start", ("?",))) if r[0] == "agg" and r[1].endswith("RangeFrom") else ("?",)
+                after = st0[0] in ("binop", "field") and contains(st0, lambda x: x[0] == "binop" and x[1] == "add" and is_pivot(x[2]) and peel(x[3]) == ("const", "int", 1))
+                if st0[0] == "binop":
+                    after = st0[1] == "add" and is_pivot(st0[2]) and peel(st0[3]) == ("const", "int", 1)
+                (fills if base_is_copy(tgt[2][0]) and after and peel(fa[1]) == ("const", "int", 0) else others).append(b)
+            elif not any(c[0] == "variant_in" and c[2] == ("None",) for e, c in q.dominating_conditions(P, f, b)):
+                others.append(b)     # (a whole-copy fill is only acceptable in the "all bytes are 0xFF" arm, which has no meaning)
+        elif t["callee"]["name"] in ("index_mut",) and not (is_pivot(P.call_args(f, t, b)[1]) or peel(P.call_args(f, t, b)[1])[0] == "agg"):
+            others.append(b)
+    ok = len(incs) == 1 and len(fills) == 1 and not others
+    ctx.ob(R, key, "two-writes: 0 and +1", ok, "expected `copy[pivot] += 1` and `copy[pivot + 1..].fill(0)`, found %d/%d and %d other indexed writes" % (len(incs), len(fills), len(others)),
+           fn=f, sample="copy[pivot] += 1; copy[pivot + 1..].fill(0)")
+    if ok:
+        some = [e for e, c in q.dominating_conditions(P, f, incs[0]) if c[0] == "variant_in" and c[2] == ("Some",) and peel(c[1])[0] == "call" and
+                peel(c[1])[1] == "std::iter::Iterator::rposition"]
+        ok1 = bool(some) and all(cf.dominates(some[0], b) for b in incs + fills) and all(cf.must_pass(fills[0], r) or not cf.dominates(some[0], r) for r in cf.return_blocks())
+        ctx.ob(R, key, "0xFF->0, other->+1", ok1 and fills[0] in cf.reachable_from(incs[0]) or (ok1 and incs[0] in cf.reachable_from(fills[0])),
+               "the increment and the zero-fill are not both done exactly when a byte other than 0xFF exists", fn=f, sample="Some(pivot): increment it, zero the 0xFF bytes behind it")
+    return "rposition"
 
 
 def _self_field(o, name):
@@ -297,7 +371,7 @@ def r3(ctx, cfg, R="C07.R3"):
                     others.append(c)
                 elif c[0] == "variant_in" and not is_param(c[1], pname):
                     # e.g. the exhausted / not exhausted edge of a scan over the namespace (`all(..)` written as a loop)
-                    others.append(("bool", ("variant", (c[1],), True)))
+                    others.append(("bool", ("variant", (c[1],), True), c[2]))
             cells[tag].append((val, others))
         ctx.ob(R, key, "%s-bound-defined-per-case" % pname, not cells[None] and len(cells["Some"]) == 1 and len(cells["None"]) >= 1,
                "%s bound has definitions outside the Some/None cases of `%s` (%s)" % (pname, pname, {k: len(v) for k, v in cells.items()}), fn=f,
@@ -313,17 +387,29 @@ def r3(ctx, cfg, R="C07.R3"):
             ctx.ob(R, key, "start-bound-is-Some", so[0] == "agg" and so[1].endswith("Option::Some"), "base start bound is %s" % fmt(so)[:80], fn=f, sample="Some(&start)")
         else:
             kinds = []
+
+            def scan_of_namespace(c, variant):
+                """`c` is the exhausted (None) / not exhausted (Some) edge of a scan over the bytes of the namespace"""
+                return len(c) > 2 and c[1][0] == "variant" and c[2] == (variant,) and \
+                    contains(c[1][1][0], lambda x: x[0] == "call" and x[1].rsplit("::", 1)[-1] in ("next", "next_back")) and \
+                    {x[2] for x in leaves(c[1][1][0]) if x[0] == "param"} == {"namespace"}
+
+            def byte_is_ff(c, pol):
+                if len(c) > 2 or c[1][0] != "eq" or c[1][2] is not pol:
+                    return False
+                a0, a1 = (peel(x) for x in c[1][1])
+                return any(x == ("const", "int", 255) for x in (a0, a1)) and \
+                    any(x[0] == "bound" and x[1] == "elem" and is_param(strip_adapters(x[2]), "namespace") for x in (a0, a1))
             for v, others in cells["None"]:
                 pv = peel(v)
                 if pv[0] == "agg" and pv[1].endswith("Option::None"):
-                    # the condition selecting the open end may look at the namespace only
-                    lv = set()
-                    for c in others:
-                        for arg in c[1][1]:
-                            lv |= {x[2] for x in leaves(arg) if x[0] == "param"}
-                    kinds.append("unbounded" if lv <= {"namespace"} and others else "unbounded?")
+                    # the open end is chosen exactly when a scan over the namespace found no byte other than 0xFF (an empty
+                    # namespace included): reached by exhausting the scan, and by nothing else
+                    kinds.append("unbounded" if len(others) == 1 and scan_of_namespace(others[0], "None") else "unbounded?")
                 elif is_upper(v):
-                    kinds.append("upper")
+                    # the finite bound is chosen exactly when the scan met a byte that is not 0xFF
+                    rest = [c for c in others if not scan_of_namespace(c, "Some")]
+                    kinds.append("upper" if len(rest) == 1 and byte_is_ff(rest[0], False) else "upper?")
                 else:
                     kinds.append("other:" + fmt(v)[:60])
             ctx.ob(R, key, "end=None->namespace_upper_bound(namespace)", "upper" in kinds and all(k in ("upper", "unbounded") for k in kinds),
@@ -338,13 +424,27 @@ def r3(ctx, cfg, R="C07.R3"):
     # yielded keys are trimmed by the prefix; values untouched
     clos = [g for g in F.lexical(key) if g.kind == "closure" and (P.closure_use(g) or (None, None, {"callee": {"key": ""}}))[2]["callee"]["key"] == "std::iter::Iterator::map"]
     ok = len(clos) == 1
+    guarded = False
     if ok:
         g = clos[0]
         use = P.closure_use(g)
         ok = use is not None and use[2]["callee"]["key"] == "std::iter::Iterator::map"
         if ok:
-            src = peel(P.call_args(use[0], use[2], use[1])[0])
-            ok = src[0] == "call" and src[1] == "cosmwasm_std::Storage::range"
+            src_full = P.call_args(use[0], use[2], use[1])[0]
+            src = peel(strip_adapters(src_full))
+            fconds = [c[1] for e, c in q.filter_conditions(P, F, src_full)]
+
+            def is_prefix_test(c):
+                pred, args, pol = c
+                return pred == "starts_with" and pol is True and len(args) == 2 and is_param(args[1], "namespace") and \
+                    contains(args[0], lambda x: x[0] == "field" and x[2] == "0" and peel(x[1])[0] == "bound" and peel(x[1])[1] == "elem")
+            # between the base range and the mapping only a filter on "the raw key carries the prefix" may sit (anything else
+            # would drop or reorder entries of the window)
+            ok = src[0] == "call" and src[1] == "cosmwasm_std::Storage::range" and all(a == "filter" for a in q.chain_adapters(src_full)) and \
+                all(is_prefix_test(c) for c in fconds)
+            guarded = any(is_prefix_test(c) for c in fconds) or \
+                any(c[0] == "bool" and is_prefix_test(c[1]) for b2, t2 in g.calls() if t2["callee"]["name"] == "index"
+                    for e, c in q.dominating_conditions(P, g, b2))
         ret = peel(P.ret(g))
         ok = ok and ret[0] == "agg" and ret[1] == "tuple" and len(ret[2]) == 2
         if ok:
@@ -359,6 +459,14 @@ def r3(ctx, cfg, R="C07.R3"):
                     is_param(peel(r[2][0][1])[2][0], "namespace")
     ctx.ob(R, key, "yields(trim(prefix,k), v)", ok, "mapping closure does not yield (trim(prefix, key), value)", fn=f,
            sample="map(|(k, v)| (trim(&prefix, &k), v))")
+    # "exposes exactly the base entries whose raw key starts with the prefix ... never read any other key": the bounds alone do
+    # not give that - for a prefix ending in 0xFF bytes the exclusive end `namespace_upper_bound` computes (`fp\0` for `fo\xff`)
+    # lets the shorter raw key `fp` into the base range, and cutting `len(prefix)` bytes off it panics. So the key whose prefix is
+    # cut off must have been tested to carry it.
+    ctx.ob(R, key, "only-keys-carrying-the-prefix-are-trimmed", ok and guarded,
+           "a raw key of the base range is cut at len(namespace) without having been tested with starts_with(namespace): for a namespace "
+           "ending in 0xFF bytes a shorter foreign key (`fp` between `fo\\xff` and the bound `fp\\0`) is inside the base range - the view "
+           "reads it and the slice panics", fn=f, sample="filter(|(k, _)| k.starts_with(&prefix)) before the trim")
     ret = P.ret(f)
     ctx.ob(R, key, "returns-mapped-iterator", contains(ret, lambda x: x[0] == "call" and x[1] == "std::iter::Iterator::map"),
            "range_with_prefix does not return the mapped iterator", fn=f, sample="Box::new(mapped)")
